@@ -432,6 +432,24 @@ class Rope:
     # ---- slicing (exact Python semantics for step None)
     def __getitem__(self, sl):
         if not isinstance(sl, slice):
+            if isinstance(sl, (int, SInt)) and not isinstance(sl, bool):
+                n = self.length()
+                i = sl
+                if i < 0:
+                    i = n + i
+                if s_or(i < 0, i >= n):
+                    raise IndexError('index out of range')
+                one = self.cut(i, i + 1)
+                if self.kind == 't':
+                    return one
+                if isinstance(one, (bytes, bytearray)):
+                    return one[0]
+                p = nonempty_pieces(one)[0]
+                if isinstance(p, Opq):
+                    return p.src.peek(p.lo, p.chain)
+                if isinstance(p, Fill):
+                    return p.ch[0]
+                raise Unsupported('byte value of a %s piece' % type(p).__name__)
             raise Unsupported('indexing a rope with %r' % (sl,))
         if sl.step is not None:
             raise Unsupported('extended slice of a rope')
@@ -800,6 +818,17 @@ def seg_eq(p, a, q, b, m):
                 else:
                     vals = [_elem_lit(y.ch, 0)] * m
                 return _peek_eq_lit(x, xa, vals)
+            # long run: only "is this whole stretch one repeated element?" is expressible -- a nondeterministic outcome, memoised per
+            # stretch, that the witness builder honours by filling the stretch
+            if isinstance(y, Fill) or (isinstance(yb, int) and isinstance(m, int) and len(set(y.v[yb:yb + m])) == 1):
+                val = _elem_lit(y.ch, 0) if isinstance(y, Fill) else _elem_lit(y.v, yb)
+                memo = x.src.__dict__.setdefault('allsame', [])
+                for lo2, hi2, v2, ch2, b2 in memo:
+                    if v2 == val and ch2 == x.chain and same_int(lo2, x.lo + xa) and same_int(hi2, x.lo + xa + m):
+                        return s_or(b2, s_eq(m, 0))
+                b = core.cur().fresh_bool('allsame_%s' % x.src.name)
+                memo.append((x.lo + xa, x.lo + xa + m, val, x.chain, b))
+                return s_or(b, s_eq(m, 0))
             core.note('imprecise', 'opaque content compared with literal of symbolic/large length: treated as different')
             return s_eq(m, 0)
     # atomic pieces and fragments of them: equal content iff the same atom (same parameters) at the same offset
@@ -1079,7 +1108,7 @@ def concretize_source(src, ev):
                         data[a:b] = enc
                 except Exception:
                     pass
-        for lo, hi, val, chain in src.__dict__.get('fills', []):
+        for lo, hi, val, chain in src.__dict__.get('fills', []) + [(l, h, v, c) for l, h, v, c, b in src.__dict__.get('allsame', []) if ev(b)]:
             a, b = ev(lo), ev(hi)
             if 0 <= a <= b <= n and not chain:
                 data[a:b] = bytes([val]) * (b - a)
